@@ -51,6 +51,9 @@ def run(chk):
     repo = chk.repo
     classes = serial.flatten_classes(repo)
     chk.floor("C10.R1", len(classes), 5, "classes with __tensor_flatten__")
+    for ci_, base_, line_, names_ in [x for x in serial.inherited_readers(repo) if not x[0].name.startswith("AWQ")]:  # AWQ tensors are converted back before they are serialized (C06.R5 / C15.R13 judge their flattened form)
+        chk.bad("C10.R1", f"{ci_.mod.rel}:{line_}", ci_.name, "reader inherited from a base that rebuilds the base class", f"{ci_.name} has its own constructor but inherits __tensor_unflatten__ from {base_.name}, which builds {names_}: a flattened {ci_.name} comes back as a {base_.name} wrapping the subclass's fields",
+                "any tensor of that class taken through __tensor_flatten__ / __tensor_unflatten__ (torch.compile, FakeTensor tracing, state_dict helpers)")
     on_path = {"QBytesTensor", "QBitsTensor", "PackedTensor"}
     for ci in classes:
         for suffix, verdict, line, tag, detail, witness in serial.analyse_class(repo, ci):
@@ -60,6 +63,8 @@ def run(chk):
                 chk.ok("C10.R4", site, "NOTE (not on a state_dict path, conversion back to QBitsTensor precedes serialization): " + detail)
             elif verdict == "ok":
                 chk.ok(rule, site, detail)
+            elif verdict == "bad" and ci.name not in on_path and suffix == "R4":
+                chk.ok("C10.R4", site, "NOTE (not on a state_dict path, conversion back to QBitsTensor precedes serialization; judged by C06.R5 / C15.R13): " + detail)
             elif verdict == "bad":
                 chk.bad(rule, site, ci.name, tag, detail, witness)
             else:
@@ -73,6 +78,7 @@ def run(chk):
             else:
                 chk.unknown("C10.R1", site, detail)
     qtensor_save(chk)
+    frozen_predicate(chk, repo.cls("QModuleMixin"))
     module_save(chk)
     module_load(chk)
     safetensors(chk)
@@ -238,6 +244,28 @@ def module_save(chk):
     init = ci.own("__init__")
     regs = {U(n.args[0]) for n in ast.walk(init) if isinstance(n, ast.Call) and U(n.func) == "self.register_buffer" and n.args}
     chk.require("C10.R2", f"{mi.rel}:{init.lineno}", {"'input_scale'", "'output_scale'"} <= regs, f"input_scale and output_scale are registered buffers ({sorted(regs)}) so the base class loads them", "QModuleMixin.__init__", "scales are buffers", "any calibrated model: activation scales are not restored")
+
+
+def frozen_predicate(chk, mixin, rule="C10.R2"):
+    """`self.frozen` decides which branch of the save path runs: it must be a function of the weight the module holds (loading a
+    frozen state_dict installs a quantized weight without calling freeze()), not a stored flag."""
+    mi = mixin.mod
+    fz = mixin.own("frozen")
+    if fz is None:
+        chk.unknown(rule, f"{mi.rel}:{mixin.node.lineno}", "QModuleMixin.frozen not found")
+        return
+    is_prop = any(U(d) == "property" for d in fz.decorator_list)
+    n = 0
+    for p in paths_of(fz):
+        if p.end[0] != "return" or p.end[1] is None:
+            continue
+        n += 1
+        e = p.end[1]
+        attrs = {nd.attr for nd in ast.walk(e) if isinstance(nd, ast.Attribute) and U(nd.value) == "self"}
+        ok = is_prop and attrs == {"weight"} and any(isinstance(nd, ast.Call) and U(nd.func) in ("isinstance", "type") for nd in ast.walk(e))
+        chk.require(rule, f"{mi.rel}:{p.end[2]}", ok, f"QModuleMixin.frozen is a property computed from the type of self.weight alone: `{U(e)[:60]}` (reads self.{sorted(attrs)})", "QModuleMixin.frozen", "frozen state not derived from the weight",
+                    "load a frozen state_dict into a freshly quantized model (or requantize()), then call state_dict() again: the quantized weight is stored as a tensor subclass under '<name>.weight' instead of its flattened form")
+    chk.floor(rule, n, 1, "return paths of QModuleMixin.frozen")
 
 
 NOT_FROZEN_LITS = {("self.weight_qtype is None", True), ("self.frozen", False), ("isinstance(self.weight, QTensor)", False)}
@@ -525,6 +553,45 @@ def requantize_rules(chk):
         chk.require("C10.R7", f"{mi.rel}:{calls[0].lineno}", ok and dep, f"requantize passes `{g}` (which gates the creation of {sorted(set(classes))}) derived from the state_dict", "requantize", f"gating kwarg {g} not derived from state_dict",
                     f"a state_dict saved from a model quantized with {g}: {sorted(set(classes))} modules are not recreated (unexpected keys)")
     chk.floor("C10.R7", len(gating), 1, "creation-gating kwargs of registered qmodules")
+    # (b) the gating value is a qtype on every path: the state_dict of a model whose activations were all disabled afterwards
+    #     (Calibration streamlining sets activation_qtype to None module by module) still holds the modules created under the gate
+    for g, classes in gating.items():
+        v = kw.get(g)
+        if not isinstance(v, ast.Name):
+            continue
+        for p in paths_of(rq):
+            if p.end[0] == "raise":
+                continue
+            vals = [U(ef[1].keywords[[k.arg for k in ef[1].keywords].index(g)].value) for ef in p.effects
+                    if ef[0] == "expr" and isinstance(ef[1], ast.Call) and U(ef[1].func) == "quantize" and g in [k.arg for k in ef[1].keywords]]
+            for t in vals:
+                chk.require("C10.R7", f"{mi.rel}:{calls[0].lineno}", t != "None", f"requantize path ({' & '.join(p.cond_texts())[:60] or 'straight'}): `{g}` = `{t[:40]}` is never None", "requantize", f"gating kwarg {g} is None on a path",
+                            f"quantize(model, weights=qint8, activations=qint8); with Calibration(): model(x) (the default streamlining turns every activation_qtype into None); freeze; requantize(new_model, state_dict): {sorted(set(classes))} is not recreated -> unexpected keys")
+        # the value the variable holds when no entry of the state_dict overrides it: its last unconditional assignment before the call
+        last = None
+        for st in rq.body:
+            if st.lineno >= calls[0].lineno:
+                break
+            if isinstance(st, ast.Assign) and U(st.targets[0]) == v.id:
+                last = st.value
+            elif isinstance(st, ast.If) and U(st.test) in (f"{v.id} is None", f"not {v.id}") and any(isinstance(x, ast.Assign) and U(x.targets[0]) == v.id and U(x.value) != "None" for x in st.body):
+                last = ast.Constant(value="<replaced when None>")
+        if last is not None:
+            chk.require("C10.R7", f"{mi.rel}:{calls[0].lineno}", U(last) != "None", f"requantize: `{g}` defaults to `{U(last)[:30]}` (not None) when no entry of the state_dict names a qtype", "requantize", f"gating kwarg {g} is None on a path",
+                        f"quantize(model, weights=qint8, activations=qint8); with Calibration(): model(x) (the default streamlining turns every activation_qtype into None); freeze; requantize(new_model, state_dict): {sorted(set(classes))} is not recreated -> unexpected keys")
+    # (c) exactly the modules recorded in the state_dict are quantized
+    mv = kw.get("modules")
+    ok_mod = False
+    if mv is not None:
+        src = mv
+        if isinstance(mv, ast.Name):
+            for n in ast.walk(rq):
+                if isinstance(n, ast.Assign) and U(n.targets[0]) == mv.id:
+                    src = n.value
+        t = U(src)
+        ok_mod = f"{model}.named_modules()" in t and f"in {sd}" in t and "weight_qtype" in t
+    chk.require("C10.R7", f"{mi.rel}:{calls[0].lineno}", ok_mod, f"requantize quantizes exactly the modules that have a `<name>.weight_qtype` entry in the state_dict (modules={U(mv)[:30] if mv is not None else None})", "requantize", "requantize quantizes every eligible module",
+                "a model quantized with a module filter (quantize(model, modules=[...])): requantize() also replaces the modules that were left in float, and loading fails with KeyError '<name>.weight_qtype'")
     # order
     ps = [p for p in paths_of(rq) if p.end[0] != "raise"]
     seq_ok = True
